@@ -71,6 +71,11 @@ def enc_arr(a: np.ndarray):
             "flat": [enc_val(x) for x in a.ravel().tolist()]}
 
 
+def width(dt) -> int | None:
+    dt = np.dtype(dt)
+    return dt.itemsize // 4 if dt.kind == "U" else dt.itemsize if dt.kind == "S" else None
+
+
 def dec_val(v):
     if isinstance(v, dict):
         return untok(v["f"]) if "f" in v else v["s"]
@@ -88,10 +93,10 @@ def build(desc):
     d = desc["np"]
     vals = [dec_val(v) for v in d["flat"]]
     if d["dtype"] == "str":
-        dt = np.dtype(f"<U{max([len(v) for v in vals] + [1])}")
+        dt = np.dtype(f"<U{d.get('width') or max([len(v) for v in vals] + [1])}")
     elif d["dtype"] == "bytes":
         vals = [v.encode("latin1") for v in vals]
-        dt = np.dtype(f"S{max([len(v) for v in vals] + [1])}")
+        dt = np.dtype(f"S{d.get('width') or max([len(v) for v in vals] + [1])}")
     elif d["dtype"] == "object":
         dt = np.dtype("O")
     else:
@@ -103,7 +108,10 @@ def build(desc):
 
 
 def np_desc(a: np.ndarray):
-    return {"np": enc_arr(a)}
+    e = enc_arr(a)
+    if width(a.dtype) is not None:
+        e["width"] = width(a.dtype)
+    return {"np": e}
 
 
 def same_array(a, b) -> bool:
@@ -186,6 +194,11 @@ def run_ser(case):
 
 
 def ser_requests(case, obs):
+    """the model collapses unicode/bytes widths into one `str`/`bytes` dtype: object arrays mixing
+    widths (numpy: different dtypes -> ValueError) are judged by the oracle only"""
+    ws = {d["np"].get("width") for d in case["elems"] if d is not None and "np" in d and d["np"]["dtype"] in ("str", "bytes")}
+    if len(ws) > 1:
+        return []
     reqs = [{"op": "ser", "elems": [d["np"] if (d is not None and "np" in d) else None for d in case["elems"]]}]
     if "ok" in obs.get("ser", {}):
         reqs.append({"op": "de", "values": obs["ser"]["ok"]["values"], "data": obs["ser"]["ok"]["data"]})
@@ -214,9 +227,9 @@ def run_de(case):
         if rows is not None and not well:
             fails.append(("C11:decode-accepts-out-of-bounds", "a slice outside the data array was decoded", obs, "ValueError"))
         elif rows is not None:
-            fl = d.tolist()
+            fl = enc_arr(d)["flat"]
             for r, x in zip(rows, back):
-                if list(x.shape) != r[1:] or x.ravel().tolist() != fl[r[0]: r[0] + math.prod(r[1:])] or x.dtype != d.dtype:
+                if list(x.shape) != r[1:] or enc_arr(x)["flat"] != fl[r[0]: r[0] + math.prod(r[1:])] or x.dtype != d.dtype:
                     fails.append(("C11:decode-wrong-slice", "decoded element is not the addressed slice", enc_arr(x), r))
     except Exception as ex:  # noqa: BLE001
         obs = {"exc": exc_name(ex)}
@@ -270,10 +283,11 @@ def expected_normal_form(objs):
                 return {"exc": "ValueError"}
     present = [a for a in arrs if a is not None]
     if present:
-        try:
-            dt = np.result_type(*[a.dtype for a in present])
-        except TypeError:
+        dt = common_dtype({a.dtype for a in present})
+        if dt is None:
             return {"exc": "ValueError"}
+        if dt == "quirk":
+            return {"quirk": True}
         nd = max(a.ndim for a in present)
     else:
         dt, nd = np.dtype("int64"), 1
@@ -284,6 +298,19 @@ def expected_normal_form(objs):
         else:
             vals.append(a.astype(dt).reshape((1,) * (nd - a.ndim) + a.shape))
     return {"ok": (dt, nd, vals, [a is None for a in arrs])}
+
+
+def common_dtype(dts):
+    """the dtype all of `dts` promote to — a function of the *set*.  numpy 2.5's many-argument
+    result_type is order dependent on {float16, str/bytes, object} (raises for some orders, object
+    for others): such sets are reported as "quirk" and get no normal-form verdict."""
+    kinds = {d.kind for d in dts}
+    if "O" in kinds and (kinds & {"U", "S"}) and np.dtype("float16") in dts:
+        return "quirk"
+    try:
+        return np.result_type(*sorted(dts, key=str))
+    except TypeError:
+        return None
 
 
 def run_construct(case):
@@ -300,7 +327,9 @@ def run_construct(case):
     except Exception as ex:  # noqa: BLE001
         obs_c = {"exc": exc_name(ex)}
     res = {"construct": obs, "common": obs_c}
-    if "exc" in exp:
+    if "quirk" in exp:
+        res["numpy_quirk"] = True
+    elif "exc" in exp:
         if "ok" in obs:
             fails.append(("C11:normalises-incompatible", "input without a common dtype / ragged entry was normalised", obs, exp))
         elif obs["exc"] != "ValueError":
@@ -408,8 +437,9 @@ def run_store(case):
     bv = back["values"]
     for i, (x, e) in enumerate(zip(bv, vals)):
         ok = (x.shape == e.shape and dname(x.dtype) == dname(e.dtype)) if flags[i] else (
-            x.shape == e.shape and dname(x.dtype) == dname(e.dtype) and x.ravel().tolist() == e.ravel().tolist()
-            and (x.dtype.kind in "US" or np.ascontiguousarray(x).tobytes() == np.ascontiguousarray(e).tobytes()))
+            x.shape == e.shape and dname(x.dtype) == dname(e.dtype)
+            and (x.ravel().tolist() == e.ravel().tolist() if x.dtype.kind in "US" else
+                 x.dtype == e.dtype and np.ascontiguousarray(x).tobytes() == np.ascontiguousarray(e).tobytes()))
         if not ok:
             fails.append(("C11:store-roundtrip-mismatch", f"entry {i} read back from the store differs", enc_arr(x), enc_arr(e)))
             break
@@ -436,7 +466,7 @@ def fill(dtype: str, shape, k: int) -> np.ndarray:
         a = np.array([pool[(k + i) % len(pool)] for i in range(n)], dtype=dtype)
     elif dtype == "str":
         pool = ["", "a", "bc", "é✓", "long string"]
-        a = np.array([pool[(k + i) % len(pool)] for i in range(n)] + ["long string"], dtype=str)[:n]
+        a = np.array([pool[(k + i) % len(pool)] for i in range(n)], dtype="<U11")
     else:
         raise ValueError(dtype)
     return a.reshape(shape)
@@ -538,7 +568,8 @@ def alphabet():
     return ALPHABET
 
 
-STR_ITEMS = [{"py": ["ab"]}, {"py": ["abcd", "c"]}, {"py": "xyz"}, {"py": [[1, 2], [3]]}, {"py": [b"ab"]}, {"py": [None, 1]}]
+STR_ITEMS = [{"py": ["ab"]}, {"py": ["abcd", "c"]}, {"py": "xyz"}, {"py": [[1, 2], [3]]},
+             {"np": {"dtype": "bytes", "shape": [1], "flat": [{"s": "ab"}]}}, {"py": [None, 1]}]
 
 
 def gen_construct_exhaustive(ck):
@@ -554,10 +585,10 @@ def gen_construct_exhaustive(ck):
         if (j + ck.seed) % step == 0:
             yield {"kind": "construct", "items": [A[i] for i in combo], "perms": True}
     # strings / bytes / object / ragged entries: oracle + order independence (model: partly unmodelled)
-    B = A[:6] + STR_ITEMS
+    B = A[:6] + [A[13]] + STR_ITEMS
     for k in (1, 2, 3):
         for combo in itertools.combinations_with_replacement(range(len(B)), k):
-            if any(i >= 6 for i in combo):
+            if any(i >= 7 for i in combo):
                 yield {"kind": "construct", "items": [B[i] for i in combo], "perms": True}
 
 
@@ -648,6 +679,7 @@ def numpy_tables(ck, drv):
     if ans is None:
         ck.broken.append({"what": "driver Drivers/C11.lean (result)", "detail": drv.broken})
         return
+    n_quirk = 0
     for s, a in zip(seqs, ans):
         n_entries += 1
         try:
@@ -655,7 +687,11 @@ def numpy_tables(ck, drv):
         except TypeError:
             r = None
         if a.get("r") != r:
+            if common_dtype({np.dtype(REP[x]) for x in s}) == "quirk":
+                n_quirk += 1          # numpy itself is order dependent here; Lean has the non-failing answer
+                continue
             ck.corr_broken("C11:numpy-table resultType", list(s), r, a)
+    ck.extra["numpy_result_type_order_dependent_sequences_skipped"] = n_quirk
     ck.extra["numpy_table_entries_checked"] = n_entries
     ck.extra["numpy_version"] = np.__version__
 
